@@ -12,6 +12,9 @@ E-deg units-of-measure interpreter (sa/deg.py) with base symbol lam (rho:3, sigm
              normaliser built by get_reasonable_normalizer() == 0
  ueg-deg     ueg_vector(rho) entries scale as rho**(usp/3) for every spec branch (VI/VJ/VIJ/VK, FracLapl
              symbolic in s, SDMX*, semilocal)
+ nldf-deg    NLDFAuxiliaryPlan: get_function_to_convolve scales as 3 + RHO_MULT_USPS; eval_rho_full rows (l=0 and
+             l=1 dot products, convolutions typed by SPEC_USPS) have the powers get_feat_usps declares
+ fl-deg      FracLaplPlan.get_feat (symbolic s, distinct counts) rows vs FracLaplSettings.get_feat_usps
  sdmx-deg    SADMPlan/SDMXPlan/SDMXFullPlan/SDMXIntPlan: abstract run of the constructor (alpha ~ lambda^2) and of
              get_features (projections lambda^3, lambda^4): each feature row has the power its settings declare
  base-deg    exchange baselines (_lda_x/_pbe_x/_chachiyo_x/_vi_x_damp helpers): e has degree 4, de/drho 1
@@ -670,6 +673,153 @@ def rule_sdmx_plans(chk, cx):
 
 
 # ----------------------------------------------------------------------------
+def rule_nldf_plan(chk, cx):
+    """Version-i NLDF features as the PLAN computes them vs the powers the settings declare.
+    (1) the function handed to the convolutions (NLDFAuxiliaryPlan.get_function_to_convolve) scales as
+        lambda^(3 + RHO_MULT_USPS[rho_mult]);
+    (2) with the convolution integrals typed lambda^(u0 + SPEC_USPS[spec]) (u0 = degree of that function - 3;
+        the integral kernels are C code, their powers are the declared table) and the semilocal gradient typed
+        lambda^4, every row written by eval_rho_full -- l=0 rows and l=1 dot products alike -- has the power
+        get_feat_usps() declares.  A dot of two NLDF vectors carries the rho_mult factor twice, a dot with the
+        density gradient once, (grad, grad) not at all."""
+    s = cx.s
+    KS = lambda xs: lst(*[K(x) for x in xs])  # noqa: E731
+    pair = lambda a, b: Tup([num(a), num(b)])  # noqa: E731
+    i0 = str_table(cx, "ALLOWED_I_SPECS_L0")
+    i1 = str_table(cx, "ALLOWED_I_SPECS_L1")
+    mults = str_table(cx, "ALLOWED_RHO_MULTS")
+    spec_usps = s.global_value(ST, "SPEC_USPS")
+    mult_usps = s.global_value(ST, "RHO_MULT_USPS")
+    if not isinstance(spec_usps, deg.Map) or not isinstance(mult_usps, deg.Map):
+        raise core.AnalysisError("SPEC_USPS / RHO_MULT_USPS are no longer literal dicts")
+
+    def tab(t, key):
+        v = t.d.get(key)
+        if not (isinstance(v, Q) and v.num is not None):
+            raise core.AnalysisError("table entry %r has no literal value" % key)
+        return v.num
+    dots = [pair(-1, -1)] + [pair(-1, k) for k in range(len(i1))] + [pair(j, k) for j in range(len(i1))
+                                                                      for k in range(j, len(i1))]
+    for level in ("MGGA", "GGA"):
+        th = lst(*[sym("th%d" % i) for i in range(3 if level == "MGGA" else 2)])
+        for mult in mults:
+            st = s.new(ST, "NLDFSettingsVI", K(level), th, K(mult), KS(i0), KS(i1), lst(*dots))
+            where = "NLDFAuxiliaryPlan(NLDFSettingsVI(%s,%s))" % (level, mult)
+            plan = s.new(PL, "NLDFAuxiliaryPlan", st, sym("nspin"), Q(D0), sym("lambd"), num(4), coef_order=K("qg"),
+                         raise_large_expnt_error=K(False), use_smooth_expnt_cutoff=K(False))
+            if not isinstance(plan, Obj) or not isinstance(st, Obj):
+                raise core.AnalysisError("%s: constructor could not be interpreted" % where)
+            nrow = 5 if level == "MGGA" else 4
+            rt = Tup([lam(3), lam(8)] + ([lam(5)] if level == "MGGA" else []))
+            rf = s.call(plan, "get_function_to_convolve", [rt])
+            cx.flush("nldf-deg", rf, where + ".get_function_to_convolve")
+            fv = deg.items_of(rf.value)
+            gf = s.hooks.method_of(plan, "get_function_to_convolve").fdef
+            if fv is None or not fv or lam_of(fv[0]) is None:
+                if not rf.mismatches:
+                    cx.nc += 1
+                    chk.note("nldf-deg", where, "function to convolve not comparable: %s" % fmt(rf.value))
+                continue
+            u0 = lam_of(fv[0]) - Lin.const(3)
+            cx.expect("nldf-deg", rf, where, fv[0], Lin.const(3) + tab(mult_usps, mult), "function handed to the convolutions",
+                      PL, "NLDFAuxiliaryPlan.get_function_to_convolve", "convolved function for rho_mult=%s" % mult,
+                      gf.lineno)
+            # convolution integrals, laid out as the C side fills them: one row per l=0 spec, three per l=1 spec
+            frows = {}
+            for i, sp in enumerate(i0):
+                frows[i] = Q(Deg({"lam": u0 + tab(spec_usps, sp)}))
+            for m_, sp in enumerate(i1):
+                for c in range(3):
+                    frows[len(i0) + 3 * m_ + c] = Q(Deg({"lam": u0 + tab(spec_usps, sp)}))
+            f = deg.rows(0, frows)
+            rho_data = deg.rows(0, {0: lam(3), 1: lam(4), 2: lam(4), 3: lam(4), 4: lam(5)} if nrow == 5 else
+                                {0: lam(3), 1: lam(4), 2: lam(4), 3: lam(4)})
+            res = s.call(plan, "eval_rho_full", [f, rho_data], {"spin": num(0)})
+            cx.flush("nldf-deg", res, where + ".eval_rho_full")
+            vals = deg.items_of(res.value)
+            feat = vals[0] if vals else None
+            decl = declared_list(s.call(st, "get_feat_usps").value, where + ".get_feat_usps")
+            ef = s.hooks.method_of(plan, "eval_rho_full").fdef
+            if not (isinstance(feat, Q) and feat.is_rows and feat.axis == 0):
+                if not res.mismatches:
+                    raise core.AnalysisError("%s.eval_rho_full: result is not row-typed (%s)" % (where, fmt(res.value)))
+                continue
+            if set(feat.rows) != set(range(len(decl))):
+                chk.violation("nldf-deg", PL, "NLDFAuxiliaryPlan.eval_rho_full", "rows written for %s" % where, ef.lineno,
+                              "%s writes rows %s but the settings declare %d features" % (where, sorted(feat.rows), len(decl)))
+                continue
+            names = list(i0) + ["(%s,%s)" % tuple("grad_rho" if int(x.num.value) == -1 else i1[int(x.num.value)]
+                                                 for x in d.items) for d in dots]
+            for i, d in enumerate(decl):
+                cx.expect("nldf-deg", res, where, feat.rows[i], d, "feature %s" % names[i], ST, "NLDFSettingsVI.get_feat_usps",
+                          "declared power of feature %s, rho_mult=%s" % (names[i], mult), ef.lineno)
+    chk.floor("nldf-deg", 20, "convolved function + l=0 rows + l=1 dots over level x rho_mult")
+
+
+def rule_fraclapl_plan(chk, cx):
+    """FracLaplPlan.get_feat rows vs FracLaplSettings.get_feat_usps (symbolic s, all counts distinct): the
+    ingredient rows are typed as the settings document them (F_s: 3+2s; the l=1 vectors F^1_s and F^d_s: +1;
+    F^dd_s: +2; density gradient: 4) and the plan's own caching/contraction code is interpreted, so a cache
+    filled over the wrong count or a dot that picks the wrong vector changes the power."""
+    s = cx.s
+    pair = lambda a, b: Tup([num(a), num(b)])  # noqa: E731
+    ns, nk0, nk1, nd1, ndd = 5, 3, 2, 4, 1
+    l1_dots = lst(pair(-1, -1), pair(-1, 0), pair(0, 1), pair(1, 1), pair(0, 0), pair(1, 0))
+    ld_dots = lst(pair(-1, 0), pair(1, 1), pair(2, 3), pair(0, 3), pair(3, 3), pair(-1, 2), pair(2, 1))
+    svals = [Lin.sym("s%d" % i) for i in range(ns)]
+    st = s.new(ST, "FracLaplSettings", lst(*[sym("s%d" % i) for i in range(ns)]), num(nk0), num(nk1), l1_dots,
+               num(nd1), ld_dots, num(ndd))
+    plan = s.new(PL, "FracLaplPlan", st, sym("nspin"))
+    if not isinstance(st, Obj) or not isinstance(plan, Obj):
+        raise core.AnalysisError("FracLaplSettings / FracLaplPlan: constructor could not be interpreted")
+    usp = lambda i: Lin.const(3) + svals[i].scale(2)  # noqa: E731
+    nsl = 5
+    rws = {0: lam(3), 1: lam(4), 2: lam(4), 3: lam(4), 4: lam(5)}
+    r = nsl
+    for i in range(nk0):
+        rws[r] = Q(Deg({"lam": usp(i)}))
+        r += 1
+    for i in range(nk1):
+        for _ in range(3):
+            rws[r] = Q(Deg({"lam": usp(i) + Lin.const(1)}))
+            r += 1
+    for i in range(nd1):
+        for _ in range(3):
+            rws[r] = Q(Deg({"lam": usp(i) + Lin.const(1)}))
+            r += 1
+    for i in range(ndd):
+        rws[r] = Q(Deg({"lam": usp(i) + Lin.const(2)}))
+        r += 1
+    rho_data = deg.rows(1, rws)
+    rho_data.shape = Tup([sym("nspin"), num(r), sym("ngrid")])
+    where = "FracLaplPlan(nk0=%d,nk1=%d,nd1=%d,ndd=%d).get_feat" % (nk0, nk1, nd1, ndd)
+    res = s.call(plan, "get_feat", [rho_data])
+    cx.flush("fl-deg", res, where)
+    decl = declared_list(s.call(st, "get_feat_usps").value, "FracLaplSettings.get_feat_usps")
+    feat = res.value
+    gf = s.hooks.method_of(plan, "get_feat").fdef
+    if not (isinstance(feat, Q) and feat.is_rows):
+        if not res.mismatches:
+            raise core.AnalysisError("%s: result is not row-typed (%s)" % (where, fmt(feat)))
+        return
+    got = {(k if k >= 0 else len(decl) + k): v for k, v in feat.rows.items()}
+    if set(got) != set(range(len(decl))):
+        chk.violation("fl-deg", PL, "FracLaplPlan.get_feat", "rows written by FracLaplPlan.get_feat", gf.lineno,
+                      "%s writes rows %s but the settings declare %d features" % (where, sorted(got), len(decl)))
+        return
+    for i, d in enumerate(decl):
+        v = got[i]
+        if isinstance(v, Unk):
+            chk.violation("fl-deg", PL, "FracLaplPlan.get_feat", "feature %d of FracLaplPlan.get_feat" % i, gf.lineno,
+                          "feature %d could not be formed from the vectors the plan cached (%s): a dot product "
+                          "addresses a vector that was never cached" % (i, v.why))
+            continue
+        cx.expect("fl-deg", res, where, v, d, "feature %d" % i, PL, "FracLaplPlan.get_feat",
+                  "feature %d of FracLaplPlan.get_feat" % i, gf.lineno)
+    chk.floor("fl-deg", 8, "feature rows of the fractional-Laplacian plan")
+
+
+# ----------------------------------------------------------------------------
 def _analyse_own(chk):
     chk.rule("exp-deg", "length-scale exponents scale as lambda^2; derivative degrees 2-3, 2-8, 2-5")
     chk.rule("sl-deg", "regularised semilocal features and the rows of the semilocal plan have the declared powers")
@@ -677,6 +827,8 @@ def _analyse_own(chk):
     chk.rule("reasonable", "declared usp + usp of the recommended normaliser == 0")
     chk.rule("ueg-deg", "ueg_vector entries scale as rho^(usp/3)")
     chk.rule("base-deg", "exchange baselines have degree 4 (energy density) and 1 (d/drho)")
+    chk.rule("nldf-deg", "NLDF plan: convolved function and version-i rows (incl. l=1 dots) have the declared powers")
+    chk.rule("fl-deg", "FracLaplPlan.get_feat rows have the powers FracLaplSettings.get_feat_usps declares")
     chk.rule("sdmx-deg", "SDMX-like plans: constructor-built fit matrices / weights give every feature row its declared power")
     cx = Ctx(chk)
     chk.guard(rule_exponent, cx)
@@ -686,6 +838,8 @@ def _analyse_own(chk):
     chk.guard(rule_semilocal_ueg, cx)
     chk.guard(rule_baselines, cx)
     chk.guard(rule_sdmx_plans, cx)
+    chk.guard(rule_nldf_plan, cx)
+    chk.guard(rule_fraclapl_plan, cx)
     eng = cx.s.eng
     chk.count("equal-degree obligations decided inside formulas", eng.checks)
     chk.count("branch-join alternatives", len(eng.conflicts))
@@ -776,6 +930,17 @@ def mutants(tree):
                "usps = self.get_feat_usps()[self.nfeat - nvi :]", "usps = self.get_feat_usps()[:nvi]", expect="reasonable"),
         Mutant("VJ normalisers read the i-block powers", ST, "usps = self.get_feat_usps()[:nvj]",
                "usps = self.get_feat_usps()[-nvj:]", expect="reasonable"),
+        Mutant("revert 8eeb341: l=1 dot powers add the rho_mult power once", ST,
+               "usps.append(nmult * usp0 + SPEC_USPS[spec1] + SPEC_USPS[spec2])",
+               "usps.append(usp0 + SPEC_USPS[spec1] + SPEC_USPS[spec2])", expect="nldf-deg"),
+        Mutant("revert af610ee: _cache_ld_vectors loops over nk1", PL,
+               "for i in range(self.settings.nd1):\n            self._cached_ld_data.append",
+               "for i in range(self.settings.nk1):\n            self._cached_ld_data.append", expect="fl-deg"),
+        Mutant("FracLapl plan: l1 dot contracts the ld cache", PL,
+               '"sxg,sxg->sg", self._cached_l1_data[j], self._cached_l1_data[k]',
+               '"sxg,sxg->sg", self._cached_ld_data[j], self._cached_l1_data[k]', expect="fl-deg"),
+        Mutant("rho_mult=expnt multiplies by the exponent twice", PL, "            a[:] *= rho\n            return a, da_tuple",
+               "            a[:] *= rho * a\n            return a, da_tuple", expect="nldf-deg"),
         Mutant("LDA exchange rho^(4/3) -> rho^(1/3)", BL, "e[:] += LDA_FACTOR * rho ** (4.0 / 3)\n",
                "e[:] += LDA_FACTOR * rho ** (1.0 / 3)\n", expect="base-deg"),
         Mutant("PBE dedx[1] loses rho^(4/3)", BL, "dedx[1] += LDA_FACTOR * rho ** (4.0 / 3) * dfx",
